@@ -11,7 +11,7 @@ func init() {
 		},
 		Rule:      "a case = (generated design, method, payload/result, kind): 'valid' (stub must run), 'mutant' (a valid payload corrupted at one point: enum/format/pattern miss, one step outside an inclusive bound, exactly on an exclusive bound, length +-1 counted in runes with multi-byte strings, required object removed, at any depth), 'wire' (the request produced by the generated client edited on the wire: required query/header/cookie/JSON member deleted, non-number in a numeric parameter, JSON member of the wrong type, truncated JSON, unknown media type, body removed), 'result-mutant' (the stub returns a result violating one constraint). Non-trivial = mutant exactly one step outside a bound, or a fault at depth >= 1, or any wire-level mutant. Distinct = SHA-256 of the case.",
 		LevelText: "Generated-input search: the verifier's own evaluator of the ten validation keywords decides validity; for invalid requests the stub must not run, the status must be 400 (415 for media-type faults) and the error name must be one of the violated rules; for invalid results the generated client must return an error instead of a value. Exploration over sampled designs, values and single-fault mutants with rapid shrinking.",
-		LevelNote: "Trusts the Go tool chain, net/http, rapid, and the verifier's validity evaluator (internal/oracle.Validate), mutator (internal/gen/mutate.go) and harness. Format validity is judged only on the generator's own pools of well-formed / malformed instances. Validations may be written in the attribute or in its Param mapping (also on alias-typed attributes); the ones written in Header/Cookie mappings are an open finding (excluded, probed).",
+		LevelNote: "Trusts the Go tool chain, net/http, rapid, and the verifier's validity evaluator (internal/oracle.Validate), mutator (internal/gen/mutate.go) and harness. Format validity is judged only on the generator's own pools of well-formed / malformed instances. Validations may be written in the attribute or in its Param mapping (also on alias-typed attributes); the ones written in Header/Cookie mappings are an open finding (excluded, probed). Extend / Reference inheritance (validations, defaults and requiredness that come with inherited attributes) is exercised on a fixed design (InheritMatrix), not in random designs.",
 		Technique: "property-based testing (rapid): single-fault mutation of valid payloads/results and wire-level edits against a reference validity evaluator",
 		Assumptions: []string{
 			"a nil slice or map is an empty one in Go: removing a required collection is not a fault; an explicit zero of a defaulted attribute may be replaced by the default, such mutants are not generated",
